@@ -50,7 +50,7 @@ CTX = None
 STATE = {'in_fit': False}
 
 DECADES = list(range(-15, 15))
-POSITIONS = ['1-ulp', '1', '1+ulp', '0.95', '0.995', '0.9995', '1.05', 'generic', 'carry']
+POSITIONS = ['1-ulp', '1', '1+ulp', '0.95', '0.995', '0.9995', '1.05', 'generic', 'carry', 'error-half-way']
 SIGS = [1, 2, 3, 4, 5, 6]
 FLAGS = ['', '+', ' ']
 CELLS = [(k, p, s, f) for k in DECADES for p in POSITIONS for s in SIGS for f in FLAGS]
@@ -123,7 +123,7 @@ def teardown(ctx):
 
 def plan(tier):
     m = 1 if tier == 'quick' else 144
-    return [('fmt', len(CELLS) * max(m, 2)), ('fmt_mc', 320 * m), ('cobs', 320 * m), ('plain', 480 * m), ('compare', 385 * m), ('zero', 480 * m),
+    return [('fmt', len(CELLS) * max(m, 2)), ('fmt_mc', 320 * m), ('cobs', 320 * m), ('plain', 480 * m), ('compare', 605 * m), ('zero', 660 * m),
             ('plottable', 120 * m), ('fit_priors', 96 * m), ('many', 150 * m), ('corr_matrix', 60 * m), ('prior_refusals', 64 * m)]
 
 
@@ -138,6 +138,11 @@ def error_at(k, pos, s, rng):
         return base                      # the double nearest to (for k >= 0: exactly) the power of ten
     if pos == 'generic':
         return base * float(rng.uniform(1.0, 10.0))
+    if pos == 'error-half-way':
+        # the error itself within an ulp of the middle between two printed values: (M + 1/2) units of its last printed digit
+        unit = 10.0 ** (k - s + 1)
+        m = int(rng.integers(10 ** (s - 1), 10 ** s - 1))
+        return float(np.nextafter((m + 0.5) * unit, [0.0, np.inf, (m + 0.5) * unit][int(rng.integers(0, 3))]))
     if pos == 'carry':
         return base * 10.0 * (1.0 - 0.4 * 10.0 ** (-s))
     return base * float(pos)
@@ -157,10 +162,11 @@ def values_for(e, s, rng):
           -0.0]
     # an exact tie: m + 2^-(nd+1) ends in the digit 5 at decimal nd+1 and is exactly representable
     nd = max(0, -int(math.floor(math.log10(e))) + s - 1)
-    if nd <= 40:
-        vs.append(sg() * (float(rng.integers(0, 64)) + 2.0 ** -(nd + 1)))
-    else:
-        vs.append(sg() * 2.0 ** -(nd + 1))
+    tie = (float(rng.integers(0, 64)) + 2.0 ** -(nd + 1)) if nd <= 40 else 2.0 ** -(nd + 1)
+    vs.append(sg() * tie)
+    # one ulp on either side of the tie: the printed digit is an exact decision
+    vs.append(sg() * float(np.nextafter(tie, 0.0)))
+    vs.append(sg() * float(np.nextafter(tie, np.inf)))
     return [float(v) for v in vs]
 
 
@@ -550,11 +556,14 @@ def case_compare(ctx, idx, rng):
     else:
         o = controlled_obs(v, e) if idx % 2 else mc_obs(rng, v, e)
     val = float(o.value)
-    rel = ['tie', 'below-within-error', 'above-within-error', 'far-below', 'far-above', 'next-float-below', 'next-float-above'][idx % 7]
+    rel = ['tie', 'below-within-error', 'above-within-error', 'far-below', 'far-above', 'next-float-below', 'next-float-above',
+           'below-by-1e-10', 'above-by-1e-10', 'below-by-1e-14', 'above-by-1e-14'][idx % 11]
     dv = float(o.dvalue)
     other = {'tie': val, 'below-within-error': val - 0.3 * dv, 'above-within-error': val + 0.3 * dv, 'far-below': val - 10 * dv - abs(val),
-             'far-above': val + 10 * dv + abs(val), 'next-float-below': float(np.nextafter(val, -np.inf)), 'next-float-above': float(np.nextafter(val, np.inf))}[rel]
-    ptype = ['float', 'np.float64', 'Obs', 'int', 'Obs-mc', 'np.float32', 'np.int64', 'np.int32', '0-d array', 'Obs-int-value', 'self'][(idx // 7) % 11]
+             'far-above': val + 10 * dv + abs(val), 'next-float-below': float(np.nextafter(val, -np.inf)), 'next-float-above': float(np.nextafter(val, np.inf)),
+             'below-by-1e-10': val - 1e-10 * abs(val), 'above-by-1e-10': val + 1e-10 * abs(val), 'below-by-1e-14': val - 1e-14 * abs(val),
+             'above-by-1e-14': val + 1e-14 * abs(val)}[rel]
+    ptype = ['float', 'np.float64', 'Obs', 'int', 'Obs-mc', 'np.float32', 'np.int64', 'np.int32', '0-d array', 'Obs-int-value', 'self'][(idx // 11) % 11]
     if ptype in ('np.int64', 'Obs-int-value') and not abs(other) < 9e15 or ptype == 'np.int32' and not abs(other) < 2e9:
         ptype = 'float'                                  # integers that the type cannot hold exactly
     if ptype == 'np.float32' and not (abs(other) < 3e38 and (other == 0 or abs(other) > 1e-37)):
@@ -621,8 +630,8 @@ def case_compare(ctx, idx, rng):
 
 
 def case_zero(ctx, idx, rng):
-    how = ['tie', 'inside', 'outside', 'random', 'random-mc'][idx % 5]
-    sigma = [1, 2, 3, 0.5, 1.5, None, np.float64(2.5), np.int64(2), 0, np.float32(0.5), True][(idx // 5) % 11]
+    how = ['tie', 'inside', 'outside', 'random', 'random-mc', 'near-tie'][idx % 6]
+    sigma = [1, 2, 3, 0.5, 1.5, None, np.float64(2.5), np.int64(2), 0, np.float32(0.5), True][(idx // 6) % 11]
     sg = 1 if sigma is None else float(sigma)
     if how == 'tie':
         # |value| = sigma * dvalue exactly: error a power of two times a small integer, so that the product is exact
@@ -630,6 +639,13 @@ def case_zero(ctx, idx, rng):
         o = controlled_obs(float(rng.choice([-1, 1])) * sg * e, e)
         if float(o.dvalue) != e:
             raise Skip()
+    elif how == 'near-tie':
+        # |value| within 1e-10 relative, or within two ulp, of sigma * dvalue on either side: the test is an exact comparison
+        e = 10.0 ** float(rng.uniform(-8, 8))
+        t = sg * e
+        v = [t * (1 - 1e-10), t * (1 + 1e-10), float(np.nextafter(t, 0.0)), float(np.nextafter(t, np.inf)), float(np.nextafter(np.nextafter(t, np.inf), np.inf)),
+             t * (1 + 1e-13)][(idx // 66) % 6]
+        o = controlled_obs(float(rng.choice([-1, 1])) * v, e)
     elif how in ('inside', 'outside'):
         e = 10.0 ** float(rng.uniform(-15, 15))
         f = float(rng.uniform(0.0, 0.98)) if how == 'inside' else float(rng.uniform(1.02, 30.0))
@@ -658,7 +674,7 @@ def case_zero(ctx, idx, rng):
         ctx.violation('is_zero_within_error:answer-depends-on-earlier-calls', {'value': repr(val), 'dvalue': repr(dv), 'sigma': repr(sigma), 'first': bool(got), 'later': bool(again)})
     ctx.ev()
     ctx.count('zero_tests_judged')
-    jd(ctx, 'is_zero_within_error:' + ('equality-not-counted-as-within' if how == 'tie' else 'differs-from-abs(value)<=sigma*dvalue'))
+    jd(ctx, 'is_zero_within_error:' + ('equality-not-counted-as-within' if how == 'tie' else 'differs-from-abs(value)<=sigma*dvalue' + ('(near-tie)' if how == 'near-tie' else '')))
     if how == 'tie':
         ctx.count('zero_tests_at_equality')
     ctx.cell('zero', how, 'sigma=%r' % sigma, 'tiny' if abs(val) < 1e-10 else 'normal')
